@@ -499,7 +499,7 @@ def failure_matrix(ctx, exe, rnd):
     hz = [b'zipped row %d' % j for j in range(1, 30)]
     with open(os.path.join(root, 'h4.gz'), 'wb') as f:
         f.write(gz_member(b'\n'.join(hz) + b'\n', 9, b'orig.log')[0])
-    matrix, violations, runs = {}, [], 0
+    matrix, violations, runs, hangs = {}, [], 0, 0
 
     def expected(names, gunzip):
         out = []
@@ -512,7 +512,7 @@ def failure_matrix(ctx, exe, rnd):
         cmd = [exe, 'filter', '-m', '.*', '-e', '{src}:{line}:{0}'] + (['-z'] if gunzip else []) + \
               ['--readers', str(readers), '--batch', str(rnd.pick([1, 7, 1000]))] + args
         kw = {'stdin': stdin_fd} if stdin_fd is not None else {'input': b''}
-        pr = subprocess.run(cmd, cwd=root, stdout=subprocess.PIPE, stderr=subprocess.PIPE, timeout=60, **kw)
+        pr = subprocess.run(cmd, cwd=root, stdout=subprocess.PIPE, stderr=subprocess.PIPE, timeout=15, **kw)
         logs = [l[6:] for l in pr.stderr.split(b'\n') if l.startswith(b'[Log] ')]
         return cmd, pr.returncode, pr.stdout.split(b'\n')[:-1], logs
 
@@ -521,6 +521,8 @@ def failure_matrix(ctx, exe, rnd):
         matrix[kind] = cell
         for pos in (0, 1, 3):
             for readers in (1, 2, 8):
+                if hangs >= 3:      # every further run would cost its full timeout
+                    continue
                 bad, needz, logpfx, sure, maybe = _matrix_bad_input(kind, root, rnd)
                 gunzip = needz or rnd.intn(2) == 0
                 good = ['h1.log', 'h2.log', 'h3.log'] + (['h4.gz'] if gunzip else [])
@@ -530,7 +532,11 @@ def failure_matrix(ctx, exe, rnd):
                     cmd, rc, out, logs = invoke(args, gunzip, readers)
                     _, rc0, out0, logs0 = invoke(good, gunzip, readers)
                 except subprocess.TimeoutExpired:
-                    violations.append({'key': 'failure-matrix-hang', 'kind': kind, 'args': args, 'readers': readers})
+                    hangs += 1
+                    cell['hangs'] = cell.get('hangs', 0) + 1
+                    if hangs <= 2:
+                        violations.append({'key': 'failure-matrix-hang', 'kind': kind, 'args': args, 'readers': readers, 'gunzip': gunzip,
+                                           'explanation': 'the real CLI did not terminate within 15 s on three small healthy files and one failing input'})
                     continue
                 runs += 2
                 cell['runs'] += 1
@@ -574,6 +580,9 @@ def failure_matrix(ctx, exe, rnd):
         fd = os.open(root, os.O_RDONLY)
         try:
             cmd, rc, out, logs = invoke(args, False, 1, stdin_fd=fd)
+        except subprocess.TimeoutExpired:
+            violations.append({'key': 'failure-matrix-hang', 'kind': 'stdin-is-dir', 'args': args})
+            continue
         finally:
             os.close(fd)
         runs += 1
@@ -583,7 +592,7 @@ def failure_matrix(ctx, exe, rnd):
         if not (rc == 2 and b'Read errors' in logs and out == []) and len(violations) < 5:
             violations.append({'key': 'failure-matrix', 'kind': 'stdin-is-dir', 'cmd': ['rare'] + cmd[1:], 'problems': ['exit %d logs %s' % (rc, logs[:3])]})
     for kind, cell in matrix.items():
-        if cell['runs'] == 0:
+        if cell['runs'] == 0 and hangs == 0 and not violations:
             violations.append({'key': 'failure-matrix-coverage', 'kind': kind, 'explanation': 'no run exercised this failure kind'})
     if not violations:
         shutil.rmtree(root, ignore_errors=True)
